@@ -20,7 +20,13 @@ def cases(r, n, ops, maxlimbs=6):
             if val_of(a) < val_of(b): a, b = b, a
             if r.random() < 0.15:   # cancelling history: (x + y) - x
                 b = a if r.random() < 0.3 else b
-        elif op == "divmod" or op == "gcd":
+        elif op in ("divmod", "div", "rem", "gcd"):
+            if r.random() < 0.15:
+                # a divisor that is numerically small but stored with two or more zero limbs on top (what a cancelling subtraction leaves),
+                # against a dividend with fewer limbs that is numerically larger
+                b = (False, [r.choice([1, 2, 3, 5, 7, r.randrange(1, 2**64)])] + [0] * r.randint(2, 4))
+                a = (True, [r.randrange(0, 2**64)]) if r.random() < 0.6 else (False, [r.randrange(0, 2**64), r.randrange(0, 2**64)] + [0] * r.randint(0, 1))
+                out.append(op + " " + show_uint(a) + " " + show_uint(b)); continue
             if r.random() < 0.3:  # divisor shares structure: multiple of b plus small remainder
                 q = val_of(raw_uint(r, 2)); vb = val_of(b)
                 a = from_val(q * vb + (r.randrange(vb) if vb and r.random() < 0.5 else 0), r)
